@@ -15,7 +15,7 @@ ATTEND = {"C01": None, "C02": None, "C04": None,
 
 def bases(seed, n):
     prof = dict(name="c16", budget_kinds=["small", "mid"], budget_min=30, budget_max=90, noise=["none", "declared", "hetero"],
-                noise_w=[4, 3, 3], fam_w=[6, 2, 1, 0, 1, 1, 1], cons_p=0.25, knobs=dict(n_train=0.5, max_iter=0.0, noise_final_samples=0.5, gp_warnings=0.4, double_refit=0.2),
+                noise_w=[4, 3, 3], fam_w=[6, 2, 1, 0, 1, 1, 1], cons_p=0.25, knobs=dict(n_train=0.5, max_iter=0.0, noise_final_samples=0.5, gp_warnings=0.4, double_refit=0.2, noise_nudge=0.35),
                 where_w=[3, 2, 2, 3])
     return [gen.make_scenario(seed, prof, i) for i in range(n)]
 
